@@ -201,8 +201,44 @@ def corrmtx_task(datatype, method, as_list=False):
     return Task("corrmtx.%s.%s" % (datatype, method), run, functions=["spectrum.linalg.corrmtx"])
 
 
+def coeff_unit_task(N, cx):
+    """the coeff-normalised autocorrelation is exactly 1 at lag 0 (needs sqrt(m) * sqrt(m) = m for m = mean |x|^2): exact algebra
+    on the real CORRELATION and xcorr, bounded in N; also: the two agree at every non-negative lag"""
+    def run(tc):
+        from .e3 import E3, e3_interp
+        from pyvc.values import Arr, Cx
+        names = sum((["x%d_r" % j, "x%d_i" % j] if cx else ["x%d" % j] for j in range(N)), [])
+        dom, I = e3_interp(tc, names)
+        E = E3(tc, dom, "coeff_unit", {"N": N, "complex": cx}, tc.seed)
+        x = [dom.csym("x%d" % j) if cx else dom.sym("x%d" % j) for j in range(N)]
+        mk = lambda: Arr.from_items(list(x), dtype="complex" if cx else "float")
+        L = N - 1
+        r = E.run(I, lambda I_: I_.call_qual("spectrum.correlation.CORRELATION", mk(), None, L, "coeff"))
+        if r is None:
+            return
+        rl = r.to_list()
+        E.eq("CORRELATION(coeff)[0]=1", V.Cx.of(rl[0]), Cx(Fraction(1), Fraction(0)))
+        m2 = sum((V.s_abs2(v) for v in x), 0)                       # N * rms^2
+        want = [sum((V.Cx.of(x[n + k]) * V.s_conj(V.Cx.of(x[n])) for n in range(N - k)), Cx(Fraction(0), Fraction(0))) / m2 for k in range(L + 1)]
+        E.eq("CORRELATION(coeff)[k]=sum x[n+k]conj(x[n])/(N rms^2)", [V.Cx.of(v) for v in rl], want)
+        t = E.run(I, lambda I_: I_.call_qual("spectrum.correlation.xcorr", mk(), None, L, "coeff"))
+        if t is None:
+            return
+        tl = t[0].to_list()
+        E.ok("xcorr:2*maxlags+1-values", len(tl) == 2 * L + 1, "length %d" % len(tl))
+        if len(tl) == 2 * L + 1:
+            E.eq("xcorr(coeff)[lag 0]=1", V.Cx.of(tl[L]), Cx(Fraction(1), Fraction(0)))
+            E.eq("xcorr(coeff)[lag k>=0]=CORRELATION(coeff)[k]", [V.Cx.of(v) for v in tl[L:]], [V.Cx.of(v) for v in rl])
+            E.eq("xcorr(coeff)[lag -k]=conj(lag k)", [V.Cx.of(v) for v in tl[:L][::-1]], [V.s_conj(V.Cx.of(v)) for v in rl[1:]])
+    return Task("coeff-unit.%s.N%d" % ("complex" if cx else "real", N), run, kind="bounded", prerun=True, timeout=150,
+                functions=["spectrum.correlation.CORRELATION", "spectrum.correlation.xcorr", "spectrum.correlation.pylab_rms_flat"])
+
+
 def tasks(tier):
     ts = []
+    for cx in (False, True):
+        for N in ((3, 4) if tier == "quick" else (2, 3, 4, 5)):
+            ts.append(coeff_unit_task(N, cx))
     for dt in ("real", "complex"):
         for norm in NORMS:
             ts.append(correlation_task(dt, norm, "auto"))
